@@ -5,6 +5,8 @@ package interp
 // the trusted base of the checks that hit it (recorded in Result.Stubs).
 
 import (
+	"reflect"
+	"gopkg.in/yaml.v3"
 	"encoding/json"
 	"fmt"
 	"go/types"
@@ -1010,6 +1012,32 @@ func init() {
 	})
 
 	// ---------------- encoding/json (native on concrete data) ----------------
+	// yaml.Unmarshal of concrete bytes into a *yaml.Node (the only use in the repo's Parse): native parse,
+	// the node tree is imported as interpreter values.
+	reg("gopkg.in/yaml.v3.Unmarshal", func(fr *frame, a []value) value {
+		i := fr.i
+		data, ok := toNative(a[0])
+		if !ok {
+			panic(unsupported{"yaml.Unmarshal of symbolic data"})
+		}
+		b, _ := data.([]byte)
+		target := a[1].(iface)
+		ptr, isPtr := target.v.(*value)
+		pt, isPT := target.t.Underlying().(*types.Pointer)
+		if !isPtr || !isPT || pt.Elem().String() != "gopkg.in/yaml.v3.Node" {
+			panic(unsupported{"yaml.Unmarshal into " + target.t.String() + " (reflection-driven decoding)"})
+		}
+		var n yaml.Node
+		if err := yaml.Unmarshal(b, &n); err != nil {
+			return i.newError(err.Error())
+		}
+		i.nativeSeen = map[uintptr]*value{}
+		defer func() { i.nativeSeen = nil }()
+		np := i.fromNative(reflect.ValueOf(&n), pt).(*value)
+		*ptr = *np
+		return iface{}
+	})
+
 	reg("encoding/json.Unmarshal", func(fr *frame, a []value) value {
 		i := fr.i
 		data, ok := toNative(a[0])
